@@ -170,10 +170,7 @@ def mkEnv (T : Tables) (seed : Nat) : Env :=
       | .ok h => .ok (score ht h)
       | .error e => .error e
     shuffle := shuffleWith seed
-    openEntry := fun low cs =>
-      match getEntryOrNone T (if low then .lowOpening else .highOpening) cs with
-      | .ok e => .ok (e.map (·.index))
-      | .error e => .error e }
+    openEntry := openEntryOf T }
 
 /-- queries evaluated at quiescent points (defaults for every argument) -/
 def queries (cfg : Config) (env : Env) (s : State) : List String :=
